@@ -169,6 +169,11 @@ CUE_REPL = ["garbage %% ", "  TRACK 05", "    INDEX 01 99:99:99", "    INDEX 01 
             "  TRACK 99 AUDIO", "    INDEX 01 00:00:74"]
 
 
+CUE_FRAMES = [("", "\n\n", "\n"), ("", "\n\n\n\n", "\n"), ("", "\n \n", "\n"), ("", "\n\t\n", "\n"), ("", "", "\n"), ("", " ", "\n"),
+              ("\n", "\n", "\n"), ("\n\n  \n", "\n", "\n"), ("", "\r\n\r\n", "\r\n"), ("", "\r", "\r"), ("", "\n\x00", "\n"),
+              ("", "\n\x0c\n", "\n"), ("\ufeff"[:0], "\n" * 200, "\n"), ("", "\n", "\n\n"), ("", "\n", "\n \n")]
+
+
 # regular-expression stress lines: an unterminated quoted string / number list followed by a long run of one character
 PROBE_KW = ['    TITLE "', 'FILE "', "    INDEX 01 ", "  TRACK 01 ", "REM "]
 PROBE_FILL = ["a" * 40, " " * 40, "\\" * 40, '\\"' * 20, "0:" * 30, "\t" * 40, "A/" * 30]
@@ -206,8 +211,14 @@ def run_cue(case):
         elif case["bin"] == "empty":
             open(os.path.join(d, "disc.bin"), "wb").close()
         p = os.path.join(d, "disc.cue")
-        with open(p, "w") as f:
-            f.write("\n".join(lines) + "\n")
+        text = "\n".join(lines) + "\n"
+        if kind == "frame":
+            # what surrounds / separates the lines: leading and trailing blank and whitespace-only lines, missing final
+            # newline, CR LF / bare CR line ends, NUL and form-feed characters
+            head, tail, eol = CUE_FRAMES[case["frame"]]
+            text = head + eol.join(lines) + tail
+        with open(p, "w", newline="") as f:
+            f.write(text)
         return run_bytes(p)
 
 
@@ -380,7 +391,8 @@ class Check(CheckBase):
             "65535}, FAT id/version, the five ID-area counts, pointer-list entries of volume/performance/patch/partial, sample "
             "fat_entry/type/loop points/loop mode/cluster_top/options; (cue) every line deleted / duplicated / replaced by 8 "
             "hostile lines and by 70 regular-expression stress lines (keyword + unterminated quote/number list + 40 x one character), "
-            "bin missing or empty; (containers) MDX header length field x 15 values (0 .. real+-1 .. 2^64-1) x 5 payloads, damaged MDX "
+            "bin missing or empty, 15 framings of the unchanged lines (leading / trailing blank and whitespace-only lines, no final "
+            "newline, CR LF / bare CR, NUL, form feed, blank lines between all lines); (containers) MDX header length field x 15 values (0 .. real+-1 .. 2^64-1) x 5 payloads, damaged MDX "
             "version, MDX cut in the middle, MODE1/2352 images cut at 10 odd lengths; thorough: ALL PAIRS of table faults (AKAI SAT x SAT, Roland FAT x FAT) and "
             "all pairs (table fault, pointer/entry fault). Every run = ls at the root and at every reachable node + export, "
             "under an 8 s CPU budget (clean run: 0.03-0.3 s) and a 6 GiB address-space limit; (growth) 10 input families whose size "
@@ -408,6 +420,9 @@ class Check(CheckBase):
             cue.append({"op": "dup", "line": i})
             for r in range(len(CUE_REPL)):
                 cue.append({"op": "replace", "line": i, "repl": r})
+        for k in range(len(CUE_FRAMES)):
+            cue.append({"op": "frame", "frame": k})
+            cue.append({"op": "frame", "frame": k, "bin": "missing"})
         out += [{"kind": "cue", "cases": cue[i:i + 30]} for i in range(0, len(cue), 30)]
         out.append({"kind": "satfill"})
         # cooperating faults inside one program file: all pairs of (header / chain-link) faults and all triples
